@@ -46,6 +46,10 @@ fn requests() -> Vec<Req> {
         ("https://sub.x.com/ad.js", "https://y.com/", "script"),
         ("https://other.com/ad.js", "https://y.com/", "script"),
         ("https://other.com/ad.js", "https://y.com/", "image"),
+        // initiators that share no token with the rules: the index then returns each matching rule
+        // exactly once (an initiator under .com probes the `com` bucket twice)
+        ("https://x.com/ad.js", "https://site.org/", "script"),
+        ("https://sub.x.com/pic.gif", "", "image"),
     ] {
         if let Ok(req) = adblock::request::Request::new(url, src, ty) {
             out.push(Req { req, url: url.into(), source: src.into(), ty });
@@ -103,7 +107,7 @@ fn check(ctx: &Ctx) -> i32 {
     }
     ctx.finish(
         "model_checking",
-        "all ordered lists without repetition of <= 3 rules (containing at least one redirect rule) of the 48-rule redirect alphabet, each built into a real engine, once with the standard resource store (a + alias, b, permissioned, fn/javascript, template; 'missing' absent) and once with an empty store, against 5 requests; thorough adds the lists of 4 that start with one of the 'a' spellings; non-trivial = at least one rule matches; every verdict (redirect, matched, important, exception) compared with the reference; ties are set-valued",
+        "all ordered lists without repetition of <= 3 rules (containing at least one redirect rule) of the 48-rule redirect alphabet, each built into a real engine, once with the standard resource store (a + alias, b, permissioned, fn/javascript, template; 'missing' absent) and once with an empty store, against 7 requests; thorough adds the lists of 4 that start with one of the 'a' spellings; non-trivial = at least one rule matches; every verdict (redirect, matched, important, exception) compared with the reference; ties are set-valued",
         &["an exception naming the same resource with a different priority suffix is Unspecified", "whether a redirect exception also unblocks the request is Unspecified"],
     )
 }
